@@ -1244,7 +1244,7 @@ fn malformed(run: &mut Run, rng: &mut Rng, base: &[Vec<u8>]) {
     }
     let tl = u32::from_le_bytes(cs[0][0..4].try_into().unwrap()) as usize;
     let fo = 4 + tl; // start of the fixed fields
-    let kind = rng.below(9);
+    let kind = rng.below(10);
     match kind {
         0 => {
             // truncate anywhere
@@ -1297,6 +1297,17 @@ fn malformed(run: &mut Run, rng: &mut Rng, base: &[Vec<u8>]) {
             cs[0][fo + 9] = if rng.chance(1, 2) { 0 } else { rng.next() as u8 };
             cs[0][fo] = *rng.pick(&[0u8, 2, 3, 255]);
             cs[0][fo + 1 + rng.below(4) as usize] = rng.next() as u8;
+        }
+        9 => {
+            // role byte 1 (image layer): 16 more bytes are needed, no cells are read, flags are applied,
+            // continuation chunks only extend the picture data
+            cs[0][fo] = 1;
+            match rng.below(4) {
+                0 => cs[0].truncate(fo + 41 + rng.below(17) as usize),
+                1 => cs.truncate(1),
+                2 => cs[0][fo + 10] = rng.next() as u8 & 0x3F,
+                _ => {}
+            }
         }
         7 => {
             // title length field
